@@ -31,11 +31,11 @@ class Ctx:
 
 def check_C01(c):
     q = c.quick
-    consts = {"MaxRank": 4, "MaxDim": 3, "MaxDim4": 2, "Ctors": {S("C"), S("F"), S("Fconv")}, "Rich": not q}
+    consts = {"MaxRank": 4, "MaxDim": 3, "MaxDim4": 2, "Ctors": {S("C"), S("F"), S("Fconv"), S("Cpre"), S("Fpre")}, "Rich": not q}
     if not q:
         consts.update({"MaxDim": 4})
     cases = c.tlc("MC_addr", "addr", consts, ["TypeOK", "CopiesDisjoint", "TableBijective", "Emit"])
-    c.replay("addr", cases, dtypes="all", pals="ident", rotate=6 if q else 0)
+    c.replay("addr", cases, dtypes="all", pals="ident", rotate=3 if q else 0)
     c.rep.rule = ("TLC enumerates every shape of rank 0-4 x constructor {row-major, column-major declared, column-major converted} "
                   "x layout {as built, one slice, one transposition} and emits the complete coordinate->cell table over the box "
                   "[-2,dim+1]^rank plus wrong-arity coordinates; each table entry is one At and one SetAt on the real tensor "
@@ -84,6 +84,9 @@ def check_C03(c):
     # (a) all programs of length <= 2 (quick) / 3 (thorough) for rank <= 3, row- and column-major
     jobs.append(("trans-lo", dict(MinRank=0, MaxRank=3, MaxDim=3, MaxDimHi=3, HiRank=3, Ctors={S("C"), S("F")},
                                   MaxLen=2, WithSlice=False, PermPalette=False, Alphabet=ALL, BothTargets=not q)))
+    # programs of length 3 on vectors, vector-shaped matrices and small matrices (T; Transpose; UT and the like)
+    jobs.append(("trans-len3-lo", dict(MinRank=1, MaxRank=2, MaxDim=3, MaxDimHi=3, HiRank=3, Ctors={S("C")},
+                                       MaxLen=3, WithSlice=False, PermPalette=False, Alphabet=ALL, BothTargets=False)))
     if not q:
         jobs.append(("trans-len3", dict(MinRank=2, MaxRank=3, MaxDim=3, MaxDimHi=2, HiRank=3, Ctors={S("C")},
                                         MaxLen=3, WithSlice=False, PermPalette=False, Alphabet=ALL, BothTargets=False)))
@@ -298,14 +301,17 @@ def check_C09(c):
     q = c.quick
     inv = ["TypeOK", "CopiesDisjoint", "Emit"]
     lay = ("C", "T", "Col", "Row", "ColT", "TCol") if q else ("C", "T", "Tp", "Row", "Col", "Step", "Mat", "ColT", "StepT", "TCol")
-    jobs = [("linalg-mat", dict(MaxDim=2 if q else 3, MaxRankT=2, LayA={S(x) for x in lay}, LayB={S(x) for x in lay},
+    jobs = [("linalg-mat", dict(MaxDim=2 if q else 3, MaxRankT=2, LayA={S(x) for x in lay}, LayB={S(x) for x in lay}, LayD={S("C")},
                                 Modes={S("safe"), S("reuse"), S("incr")},
                                 Kinds={S(x) for x in ("MatMul", "MatVecMul", "Inner", "Outer", "Trace")})),
             ("linalg-tensor", dict(MaxDim=2, MaxRankT=3, LayA={S(x) for x in (("C", "T", "Col") if q else lay)},
-                                   LayB={S(x) for x in (("C", "Col") if q else lay)}, Modes={S("safe")},
-                                   Kinds={S("TensorMul"), S("Dot")}))]
+                                   LayB={S(x) for x in (("C", "Col") if q else lay)}, LayD={S("C")}, Modes={S("safe")},
+                                   Kinds={S("TensorMul"), S("Dot")})),
+            # destinations with a layout of their own (a lazily transposed tensor, a view, a window) for reuse and incr
+            ("linalg-dest", dict(MaxDim=3, MaxRankT=2, LayA={S("C"), S("T")}, LayB={S("C"), S("Col")}, LayD={S(x) for x in ("T", "Col", "Row", "Step")},
+                                 Modes={S("reuse"), S("incr")}, Kinds={S(x) for x in ("MatMul", "MatVecMul", "Outer")}))]
     if not q:
-        jobs.append(("linalg-mat4", dict(MaxDim=4, MaxRankT=2, LayA={S("C"), S("T"), S("Col")}, LayB={S("C"), S("T"), S("Col")},
+        jobs.append(("linalg-mat4", dict(MaxDim=4, MaxRankT=2, LayA={S("C"), S("T"), S("Col")}, LayB={S("C"), S("T"), S("Col")}, LayD={S("C")},
                                          Modes={S("safe"), S("reuse"), S("incr")}, Kinds={S("MatMul"), S("MatVecMul"), S("Outer")})))
     for name, k in jobs:
         cases = c.tlc("MC_linalg", name, k, inv)
@@ -384,7 +390,7 @@ def check_C16(c):
     cases = c.tlc("MC_reduce", "f-reduce", k, ["TypeOK", "Emit"])
     c.replay("f-reduce", cases, dtypes="float64,int16,uint8", pals="ident,signed", rotate=1 if q else 0, extra=["-ops", "all"])
     # products
-    k = dict(MaxDim=2 if q else 3, MaxRankT=2, LayA={S(x) for x in ("C", "F", "FT")}, LayB={S(x) for x in ("C", "F", "FT")},
+    k = dict(MaxDim=2 if q else 3, MaxRankT=2, LayA={S(x) for x in ("C", "F", "FT")}, LayB={S(x) for x in ("C", "F", "FT")}, LayD={S("C")},
              Modes={S("safe"), S("reuse"), S("incr")}, Kinds={S(x) for x in ("MatMul", "MatVecMul", "Inner", "Outer", "Trace")})
     cases = c.tlc("MC_linalg", "f-linalg", k, ["TypeOK", "Emit"])
     c.replay("f-linalg", cases, dtypes="floatcomplex", pals="ident,signed", rotate=2 if q else 0, extra=["-entries", "func,method"])
@@ -421,7 +427,7 @@ def check_C20(c):
     k = elem_consts(q, ["Arith", "FMA"], laya=lay, layb=("C", "T", "Col"), modes=("safe", "unsafe", "reuse", "incr"), layd=("C", "Col"),
                     mismatch=False, MinRank=1, MaxRank=2 if q else 3, MaxDim=3, HiRank=3)
     corp.append(("cfg-arith", "MC_elem", k, ELEM_INV, ["-ops", "add,sub,mul,div,pow,mod", "-entries", "func,method"]))
-    k = dict(MaxDim=2 if q else 3, MaxRankT=2, LayA={S(x) for x in ("C", "T", "Col")}, LayB={S(x) for x in ("C", "T", "Col")},
+    k = dict(MaxDim=2 if q else 3, MaxRankT=2, LayA={S(x) for x in ("C", "T", "Col")}, LayB={S(x) for x in ("C", "T", "Col")}, LayD={S("C")},
              Modes={S("safe"), S("reuse"), S("incr")}, Kinds={S(x) for x in ("MatMul", "MatVecMul", "Inner", "Outer")})
     corp.append(("cfg-linalg", "MC_linalg", k, ["TypeOK", "Emit"], ["-entries", "func,method"]))
     k = dict(MinRank=0, MaxRank=3, MaxDim=3, MaxDimHi=2 if q else 3, HiRank=3, Ctors={S("C")}, MaxLen=2, WithSlice=False, PermPalette=False,
@@ -576,7 +582,7 @@ def check_C19(c):
     k = dict(MinRank=1, MaxRank=3, MaxDim=3, MaxDimHi=2, HiRank=3, LayA={S("C"), S("T"), S("Col")}, Kinds={S("Reduce"), S("Arg")})
     cases = c.tlc("MC_reduce", "hist-reduce", k, ["TypeOK", "Emit"])
     c.replay("hist-reduce", cases, dtypes="float64", pals="ident", extra=["-ops", "all"])
-    k = dict(MaxDim=2, MaxRankT=3, LayA={S("C")}, LayB={S("C")}, Modes={S("safe")}, Kinds={S("TensorMul")})
+    k = dict(MaxDim=2, MaxRankT=3, LayA={S("C")}, LayB={S("C")}, LayD={S("C")}, Modes={S("safe")}, Kinds={S("TensorMul")})
     cases = c.tlc("MC_linalg", "hist-tensormul", k, ["TypeOK", "Emit"])
     c.replay("hist-tensormul", cases, dtypes="float64", pals="ident", extra=["-entries", "func,method"])
     c.rep.exhaustive = False
